@@ -318,6 +318,93 @@ def c12_third_pool(e1: int, m1: int, e2: int, m2: int, e3: int, m3: int) -> int:
     return _history3((e1, 0, m1), (e2, 0, m2), False, True, (e3, 0, m3))
 
 
+class _TextFH:
+    """text file of the dict-backed file system (metadata.json)"""
+
+    def __init__(self, fs, path, mode):
+        self.fs, self.path, self.mode = fs, path, mode
+        if 'w' in mode:
+            fs.files[path] = ''
+
+    def __enter__(self):
+        return self
+
+    def __exit__(self, *a):
+        return False
+
+    def write(self, text):
+        self.fs.files[self.path] += text
+
+    def read(self, n=-1):
+        return self.fs.files[self.path]
+
+
+class _FSText(_FS):
+    def open(self, path, mode='r'):
+        if str(path).endswith('.json'):
+            return _TextFH(self, str(path), mode)
+        return _FH(self, str(path), mode)
+
+
+class _FsPath(type(Path())):
+    """a path whose existence is answered by the dict-backed file system"""
+    FS = None
+
+    def exists(self):
+        return str(self) in _FsPath.FS.files
+
+
+def _reopen(e1, m1, mw1, l1, e2, m2, mw2, l2):
+    """generateIndex-like: register two pools, save the metadata; a NEW IndexDir on the same directory (what every later
+    command does) must know both pools with exactly their parameters - zeros included - and load the right data"""
+    fs = _FSText()
+    _FsPath.FS = fs
+    root = _FsPath('/mpgverif-index')
+
+    def cp(e, m, mw, ln):
+        return CleavageParams(enzyme=ENZ[e], exception=None, miscleavage=m, min_mw=mw, min_length=ln, max_length=25)
+
+    p1, p2 = cp(e1, m1, mw1, l1), cp(e2, m2, mw2, l2)
+    same = p1.jsonfy(graph_params=False) == p2.jsonfy(graph_params=False)
+    if same:
+        return SKIP
+    with patched((idx, 'open', fs.open), (idx, 'pickle', _Pickle)):
+        d = IndexDir(root)
+        d.save_canonical_peptides({'POOL1'}, p1)
+        d.save_canonical_peptides({'POOL2'}, p2)
+        d.save_metadata()
+        again = IndexDir(root)
+        if len(again.metadata.canonical_pools) != 2:
+            return -1
+        for want, params in (({'POOL1'}, cp(e1, m1, mw1, l1)), ({'POOL2'}, cp(e2, m2, mw2, l2))):
+            try:
+                got = again.load_canonical_peptides(params)
+            except ValueError:
+                return -6          # registered parameters are not found after reopening the directory
+            if got != want:
+                return -8
+    return OK
+
+
+
+
+@cond('C12', bounds='two pools registered with parameters from: enzyme in 2, miscleavage in {0, 1, 2}, min_mw in {0, 500}, '
+      'min_length in {0, 7}; metadata saved as JSON text and read back by a NEW IndexDir object', encodes=[
+      'moPepGen.index.IndexDir.save_metadata / load_metadata / load_canonical_peptides', 'moPepGen.index.IndexMetadata.jsonfy',
+      'moPepGen.params.CleavageParams.jsonfy'], stubs=['moPepGen.index.open / pickle -> dict-backed file system (JSON text is '
+      'written and parsed by the real json module)', 'Path.exists -> dict-backed file system'],
+      codes={-1: 'number of registered pools changed on reopening', -6: 'registered parameters are not found after reopening '
+             'the index directory', -8: "load returned another parameter set's pool"}, shim=False, timeout=400)
+def c12_metadata_reopen(e1: int, m1: int, z1: bool, l1: bool, e2: int, m2: int, z2: bool, l2: bool) -> int:
+    """
+    pre: 0 <= e1 <= 1 and 0 <= e2 <= 1
+    pre: 0 <= m1 <= 2 and 0 <= m2 <= 2
+    post: _ >= 0
+    """
+    return _reopen(concretize(e1, 0, 1), concretize(m1, 0, 2), 0. if z1 else 500., 0 if l1 else 7,
+                   concretize(e2, 0, 1), concretize(m2, 0, 2), 0. if z2 else 500., 0 if l2 else 7)
+
+
 # --------------------------------------------------------------------------
 # plumbing
 # --------------------------------------------------------------------------
